@@ -14,7 +14,6 @@ import (
 	"fmt"
 	"io"
 	"os"
-	"sort"
 	"sync"
 	"testing"
 	"time"
@@ -953,7 +952,8 @@ func drawObs(t *rapid.T, obj objT, c corrT) obsT {
 	size := obj.size()
 	o := obsT{Style: rapid.SampledFrom([]string{"read", "read", "readall", "readat", "readat", "readat", "writeto", "writetoat", "writetoat"}).Draw(t, "style")}
 	if o.Style == "readat" { // prefetching only exists on the ReadAt path (and every prefetching reader costs a goroutine)
-		o.Prefetch = rapid.SampledFrom([]int{0, 0, 1, 1, 2}).Draw(t, "prefetch")
+		// rare: datamon never releases a reader created with prefetching on (see prefetchSubset)
+		o.Prefetch = rapid.SampledFrom([]int{0, 0, 0, 0, 0, 0, 0, 1, 1, 2}).Draw(t, "prefetch")
 	}
 	o.CacheL = rapid.IntRange(1, 8).Draw(t, "cache")
 	o.RCW = rapid.IntRange(1, 4).Draw(t, "rcw")
@@ -1113,6 +1113,21 @@ func enumCorruptions(obj, other objT, allBits bool) []corrT {
 	return out
 }
 
+// prefetchSubset selects the corruptions that are ALSO observed through a prefetching Fs (prefetching is off by
+// default in cafs). Every reader created with prefetching on is never released by datamon (its watchPrefetched
+// goroutine keeps the reader, the Fs and the cached 1 MiB leaf buffers reachable, so the finalizer that should
+// stop it never runs): enumerating all bit flips twice would need tens of GB.
+func prefetchSubset(obj objT, c corrT) bool {
+	bl := obj.blobLen(c.Target)
+	switch c.Kind {
+	case "flip":
+		return c.Bit == c.Pos%8 && (c.Pos == 0 || c.Pos == bl-1 || c.Pos == bl/2)
+	case "trunc":
+		return c.Len == 0 || c.Len == bl-1 || c.Len == bl/2
+	}
+	return true
+}
+
 // enumObs lists every read style for a corruption of the given target
 func enumObs(obj objT, c corrT, bothPrefetch bool) []obsT {
 	L := int(obj.Leaf)
@@ -1206,7 +1221,7 @@ func enumerate(t *testing.T, full bool, shard, shards int) (corruptions, triples
 				cs := base
 				cs.Corr = c
 				cs.SharedFs = true // cafs.New costs ~2 ms (it clears a 1 MiB buffer and builds loggers): one Fs per option set and corruption
-				cs.Obs = enumObs(obj, c, full)
+				cs.Obs = enumObs(obj, c, full && prefetchSubset(obj, c))
 				be := st0.be.Clone()
 				if err := runPrepared(cs, true, st0.onClone(be), ost0.onClone(be)); err != nil {
 					b, _ := json.Marshal(cs)
@@ -1243,19 +1258,9 @@ func TestEnumCafs(t *testing.T) {
 	}
 	if full {
 		stats.SetExhaustive(true)
-		stats.Note("enumeration", "every bit flip, truncation length (0..len-1), delete, 4 appends, every own-leaf / other-leaf / own-root / other-root replacement of every leaf blob and of the root blob of objects with L in {64,80}, 1..3 leaves, last leaf in {L,1,37} (plus two identical-leaf shapes), each against 6 Read buffer programs, ReadAll, WriteTo(Writer), WriteTo(WriterAt) and 4..7 ReadAt ranges x prefetch {0,1}")
+		stats.Note("enumeration", "every bit flip, truncation length (0..len-1), delete, 4 appends, every own-leaf / other-leaf / own-root / other-root replacement of every leaf blob and of the root blob of objects with L in {64,80}, 1..3 leaves, last leaf in {L,1,37} (plus two identical-leaf shapes), each against 6 Read buffer programs, ReadAll, WriteTo(Writer), WriteTo(WriterAt) and 4..7 ReadAt ranges on a default (non-prefetching) Fs; a subset (3 flips and 3 truncations per blob, all other corruptions) is repeated on a prefetching Fs incl. a warm-up read")
 	}
 	stats.Count("enum_corruptions", nc)
 	stats.Count("enum_triples", nt)
 	t.Logf("enumerated %d corruptions, %d (corruption, style) pairs (shard %d/%d, full=%v)", nc, nt, shard, shards, full)
-}
-
-// sortedKeys is a small helper for deterministic iteration
-func sortedKeys(m map[string][]byte) []string {
-	ks := make([]string, 0, len(m))
-	for k := range m {
-		ks = append(ks, k)
-	}
-	sort.Strings(ks)
-	return ks
 }
